@@ -3,7 +3,7 @@ CONSTANTS
   Writers = {1}
   Readers = {1}
   Closers = {1}
-  WSizes = {0, 3}
+  WSizes = {3}
   RBufs = {2}
   MSizes = {3}
   Kinds = {"bin"}
@@ -12,6 +12,7 @@ CONSTANTS
   MaxR = 1
   MaxMsg = 1
   PipeWriteLock = TRUE
+  C2ClosesPipe = TRUE
   EnvAtRest = FALSE
   History = TRUE
 SPECIFICATION FairSpec
